@@ -310,9 +310,11 @@ def cases(tier, seed):
         rnd.shuffle(rest)
         chosen += rest[:10]
     for r in chosen:
-        if r["size"] > 40000:
-            for i in range(0, len(r["tables"]), 4):
-                add("payload", font=r["path"], tags=r["tables"][i:i + 4], tagkey="+".join(r["tables"][i:i + 4]))
+        if r["size"] > 6000:
+            # charstring-heavy fonts take seconds per damaged variant: a few tables per case
+            step = 2 if r["size"] > 40000 else 5
+            for i in range(0, len(r["tables"]), step):
+                add("payload", font=r["path"], tags=r["tables"][i:i + step], tagkey="+".join(r["tables"][i:i + step]))
         else:
             add("payload", font=r["path"], tags=None)
 
